@@ -243,6 +243,8 @@ pub enum EResult {
 pub enum WgDim {
     Lit(u32),
     Const(String, u32),
+    /// the dimension is the named `override` (its value is a pipeline-creation matter)
+    Override(String),
 }
 
 impl WgDim {
@@ -250,6 +252,7 @@ impl WgDim {
         match self {
             WgDim::Lit(v) => *v,
             WgDim::Const(_, v) => *v,
+            WgDim::Override(_) => 0,
         }
     }
 }
@@ -320,6 +323,14 @@ pub struct Shader {
     /// occurrences selected by `uses` (bit k%32 = k-th occurrence in rendering order).
     #[serde(default)]
     pub aliases: Vec<AliasDef>,
+    /// (variable name, override name): `var<workgroup> name: array<T, override>` -- the variable's
+    /// type in `globals` is `array<T, 4>`, the renderer writes the override as the length
+    #[serde(default)]
+    pub ov_sized: Vec<(String, String)>,
+    /// module-scope text items without a model counterpart (helper functions that take and return
+    /// structs, `const_assert`): they carry no expectation of any property
+    #[serde(default)]
+    pub raw_items: Vec<String>,
 }
 
 #[derive(Clone, PartialEq, Debug, Serialize, Deserialize)]
